@@ -412,6 +412,19 @@ func shadowTemplates() []shadowTpl {
 		{"lambda-param/outside", "((lambda ({B}) 0) 1)\n{CALL}", 2},
 		{"defun-param/body", "(defun g ({B})\n{CALL})\n(g (lambda (&rest a) 0))", 2},
 		{"defun-param/outside", "(defun g ({B}) 0)\n{CALL}", 2},
+		// every KIND of parameter shadows: &optional, &rest and &key names, in defun, lambda, flet and labels
+		{"defun-optional-param/body", "(defun g (&optional {B})\n{CALL})\n(g (lambda (&rest a) 0))", 2},
+		{"defun-rest-param/body", "(defun g (&rest {B})\n(let ([{B} (car {B})])\n{CALL}))\n(g (lambda (&rest a) 0))", 3},
+		{"defun-key-param/body", "(defun g (x &key {B})\n{CALL})\n(g 1 :{B} (lambda (&rest a) 0))", 2},
+		{"defun-key-param-only/body", "(defun g (&key {B})\n{CALL})\n(g :{B} (lambda (&rest a) 0))", 2},
+		{"defun-optional-then-key/body", "(defun g (&optional y &key {B})\n{CALL})\n(g 1 :{B} (lambda (&rest a) 0))", 2},
+		{"lambda-key-param/body", "((lambda (&key {B})\n{CALL}) :{B} (lambda (&rest a) 0))", 2},
+		{"lambda-optional-param/body", "((lambda (&optional {B})\n{CALL}) (lambda (&rest a) 0))", 2},
+		{"flet-key-param/body", "(flet ([g (&key {B})\n{CALL}]) (g :{B} (lambda (&rest a) 0)))", 2},
+		{"labels-key-param/body", "(labels ([g (x &key {B})\n{CALL}]) (g 1 :{B} (lambda (&rest a) 0)))", 2},
+		{"labels-param/body", "(labels ([g ({B})\n{CALL}]) (g (lambda (&rest a) 0)))", 2},
+		{"defmacro-param/body", "(defmacro gm ({B})\n{CALL})\n(gm 1)", 2},
+		{"defun-key-param/outside", "(defun g (&key {B}) 0)\n{CALL}", 2},
 		{"flet-param/body", "(flet ([g ({B})\n{CALL}]) (g (lambda (&rest a) 0)))", 2},
 		{"global-defun/before", "(defun {B} (&rest a) 0)\n{CALL}", 2},
 		{"global-defun/after", "(progn\n{CALL}\n)\n(defun {B} (&rest a) 0)", 2},
